@@ -8,7 +8,7 @@ floats -> int).
 """
 import warnings
 import numpy as np
-from rsatoolbox.data.dataset import Dataset, TemporalDataset
+from rsatoolbox.data.dataset import Dataset, TemporalDataset, merge_subsets
 from rsatoolbox.data.ops import merge_datasets
 from rsatoolbox.data.computations import average_dataset_by
 
@@ -49,20 +49,38 @@ def canon(ds):
 
 
 def build(init):
+    """constructs the real object; `None` dictionaries and bare-string columns are passed as such"""
     meas = np.array(init['meas'], dtype=float)
     kinds = init.get('kinds', {})
 
     def tbl(axis):
+        if init[axis] is None:
+            return None
         out = {}
         for k, vals in init[axis]:
-            out[k] = np.array(vals) if kinds.get(f'{axis}:{k}', 'list') == 'array' else list(vals)
+            if isinstance(vals, str):
+                out[k] = vals
+            else:
+                out[k] = np.array(vals) if kinds.get(f'{axis}:{k}', 'list') == 'array' else list(vals)
         return out
-    desc = {k: v for k, v in init['desc']}
+    desc = None if init['desc'] is None else {k: v for k, v in init['desc']}
     if init['temporal']:
         return TemporalDataset(meas, descriptors=desc, obs_descriptors=tbl('obs'),
                                channel_descriptors=tbl('chan'), time_descriptors=tbl('time'))
     return Dataset(meas[:, :, 0], descriptors=desc, obs_descriptors=tbl('obs'),
                    channel_descriptors=tbl('chan'))
+
+
+def try_build(init):
+    """(dataset, None) or (None, name of the exception the constructor raised)"""
+    with warnings.catch_warnings():
+        warnings.simplefilter('ignore')
+        try:
+            return build(init), None
+        except Warning:
+            return None, 'Warning'
+        except Exception as exc:  # noqa: BLE001
+            return None, exc_name(exc)
 
 
 # ---------------------------------------------------------------- symbolic arguments
@@ -157,10 +175,35 @@ def resolve(ws, op):
         return dict({'at': i}, **kw)
 
     if name == 'copy':
-        return A(), True, lambda: repl([d.copy()])
+        def call():
+            c = d.copy()
+            # a copy compares equal (`__eq__`, `desc_eq`) and owns its measurements
+            if not (c == d) or not (d == c):
+                raise AssertionError('copy() != original')
+            # ... and differs from other objects, from a dataset of the other class and from a
+            # dataset with another descriptor set
+            other = d.copy()
+            other.obs_descriptors = dict(other.obs_descriptors, **{'~extra~': [0] * dims(d)[0]})
+            if (d == 'x') or (other == d) or (is_temporal(d) and Dataset.__eq__(d, 0)):
+                raise AssertionError('__eq__ equates different objects')
+            if not np.array_equal(c.get_measurements(), d.measurements) or \
+                    np.shares_memory(c.measurements, d.measurements):
+                raise AssertionError('copy() shares or changes the measurements')
+            return repl([c])
+        return A(), True, call
     if name == 'pick':
         return A(), True, lambda: ('state', [d])
     if name == 'merge':
+        if len({is_temporal(x) for x in ws}) > 1:
+            def call():
+                try:
+                    merge_datasets(list(ws))
+                except ValueError:
+                    return ('rejected', None)
+                raise AssertionError('merge_datasets accepted datasets of different classes')
+            return None, True, call
+        if op.get('alias'):
+            return None, merge_admissible(ws), lambda: ('state', [merge_subsets(list(ws))])
         return None, merge_admissible(ws), lambda: ('state', [merge_datasets(list(ws))])
     if name in ('split_obs', 'split_channel', 'split_time'):
         axis = {'split_obs': 'obs', 'split_channel': 'chan', 'split_time': 'time'}[name]
@@ -238,6 +281,8 @@ def resolve(ws, op):
         by = pick_key(table(d, 'time'), k)
         if by is None:
             return A(), False, None
+        if op.get('alias'):
+            return A(by=by), ok and temporal, lambda: repl([d.convert_to_dataset(by)])
         return A(by=by), ok and temporal, lambda: repl([d.time_as_observations(by)])
     if name == 'time_as_channels':
         return A(), ok and temporal, lambda: repl([d.time_as_channels()])
@@ -256,6 +301,12 @@ def resolve(ws, op):
 
         def call():
             df = d.to_df(key)
+            if name == 'df_default' and op.get('noname'):
+                r = Dataset.from_df(df)          # channel descriptor gets the default key 'name'
+                if list(r.channel_descriptors) != ['name']:
+                    raise AssertionError('from_df default channel descriptor is not "name"')
+                r.channel_descriptors = {key: r.channel_descriptors['name']}
+                return repl([r])
             if name == 'df_default':
                 return repl([Dataset.from_df(df, channel_descriptor=key)])
             return repl([Dataset.from_df(df, channels=list(df.columns[:len(names)]),
@@ -303,6 +354,8 @@ def apply_step(ws, op):
             kind, val = call()
         except Exception as exc:  # noqa: BLE001  (library failure is a result, not a crash)
             return {'args': args, 'out': {'exc': exc_name(exc), 'msg': str(exc)[:120]}}, ws, None
+    if kind == 'rejected':
+        return {'args': args, 'out': 'rejected'}, ws, None
     if kind == 'query':
         return {'args': args, 'out': {'query': val}}, ws, val
     try:
@@ -313,11 +366,14 @@ def apply_step(ws, op):
 
 
 def run_session(case):
-    ws = [build(case['init'])]
+    d0, exc = try_build(case['init'])
+    if d0 is None:
+        return {'init': 'rejected', 'exc': exc, 'steps': []}
+    ws = [d0]
     steps = []
     for op in case['ops']:
         res, ws, _ = apply_step(ws, op)
         steps.append(res)
         if isinstance(res['out'], dict) and 'exc' in res['out']:
             break     # the real state is gone; later steps cannot be compared
-    return steps
+    return {'init': canon(d0), 'steps': steps}
